@@ -79,6 +79,7 @@ def battery(ir_src):
     res.append("json_schema:" + (r if isinstance(r, str) else json.dumps(r, cls=SetEncoder)))
     for style in ("rest", "google", "numpydoc"):
         res.append(style + ":" + str(quiet(cdd.docstring.emit.docstring, copy.deepcopy(ir), docstring_format=style)))
+    res.append("ir:" + json.dumps(ir_view(ir), default=repr))
     return res
 
 # T3 + T5: the first input is converted first, again after everything else, and its node is re-used across formats
@@ -87,6 +88,8 @@ r_first = battery(first)
 out["battery"] = [battery(s) for s in job["sources"]]
 r_again = battery(first)
 out["history"] = {"first": r_first, "again": r_again}
+# every input once more, in reverse order, after everything else has run: the k-th conversion of an input is its first
+out["history_all"] = {"again": [battery(s) for s in reversed(job["sources"])][::-1]}
 node = ast.parse(job["functions_with_body"][0]).body[0]
 dump0 = ast.dump(node)
 ir_a = quiet(cdd.function.parse.function, node)
@@ -218,6 +221,28 @@ def gen_function(rng, with_body=False):
     return 'def f(%s):\n    """\n%s\n    """\n%s' % (", ".join(sig), "\n".join(doc), body), names, documented
 
 
+def gen_function_styled(rng):
+    """a function documented in Google or NumPy style, with sections after the parameters (two functions of one job often share the
+    same docstring text, as generated code does)"""
+    k = rng.randint(1, 4)
+    names = rng.sample(NAMES, k)
+    style = rng.choice(["google", "numpydoc"])
+    tail = rng.sample(["Raises", "Example", "Note"], rng.randint(0, 2))
+    if style == "google":
+        doc = ["    Save it", "", "    Args:"] + ["      %s (int): the %s" % (n, n) for n in names] + [""]
+        if rng.random() < 0.5:
+            doc += ["    Returns:", "      int: result", ""]
+        for t in tail:
+            doc += ["    %s:" % t, "      something about %s" % t.lower(), ""]
+    else:
+        doc = ["    Save it", "", "    Parameters", "    ----------"] + [l for n in names for l in ("    %s : int" % n, "        the %s" % n)] + [""]
+        if rng.random() < 0.5:
+            doc += ["    Returns", "    -------", "    int", "        result", ""]
+        for t in tail:
+            doc += ["    %s" % t, "    " + "-" * len(t), "    something about %s" % t.lower(), ""]
+    return 'def f(%s):\n    """\n%s\n    """\n    return 1\n' % (", ".join(names), "\n".join(doc[:-1]))
+
+
 def gen_class(rng):
     k = rng.randint(1, 6)
     names = rng.sample(NAMES, k)
@@ -251,6 +276,8 @@ def gen_job(rng, n):
         meta.append((names, documented))
     for _ in range(max(4, n // 4)):
         job["sources"].append(gen_class(rng) if rng.random() < 0.6 else gen_function(rng)[0])
+    styled = [gen_function_styled(rng) for _ in range(max(3, n // 8))]
+    job["sources"] += styled + [styled[0]]          # the same text a second time
     job["functions_with_body"].append(gen_function(rng, with_body=True)[0])
     tables = rng.sample(["Customer", "Product", "Warehouse", "Courier", "Vendor", "Region"], rng.randint(2, 5))
     job["fk_model"] = FK_MODEL % "".join('    %s = Column(%s, ForeignKey("%s"), nullable=True)\n' % (t.lower(), t, t) for t in tables)
@@ -352,6 +379,12 @@ def run(ctx):
             ctx.violation({"stage": "same process, repeated call after unrelated conversions", "input": job["sources"][0],
                            "clause": "output independent of how many times / which conversions ran before",
                            "first": o["history"]["first"], "again": o["history"]["again"]})
+        for src_, b1, b2 in zip(job["sources"], o["battery"], o["history_all"]["again"]):
+            if b1 != b2:
+                ctx.violation({"stage": "same process, every input converted a second time after all the others", "input": src_,
+                               "clause": "output independent of how many times / which conversions ran before",
+                               "first": [x for x, y in zip(b1, b2) if x != y][:2], "again": [y for x, y in zip(b1, b2) if x != y][:2]})
+                break
         if not o["reuse"]["input_node_unchanged"] or o["reuse"]["after_class_emit"] != o["reuse"]["fresh"]:
             ctx.violation({"stage": "same process, same in-memory node converted to a class and then parsed again",
                            "input": job["functions_with_body"][0],
